@@ -15,6 +15,9 @@ type CodeWriter struct {
 	WriteSemicolons bool
 
 	pendings []rune
+	// mapping recorded by AddMapping / AddNamedMapping: it belongs to the next character
+	// written, after the pending white space and a separating space, if any
+	pendingMapping *pendingMapping
 }
 
 // WriteString writes a string to the buffer
@@ -22,6 +25,7 @@ func (cw *CodeWriter) WriteString(s string) {
 	cw.flushPending()
 	if len(s) > 0 {
 		cw.separateSigns(s[0])
+		cw.commitMapping()
 	}
 	cw.Builder.WriteString(s)
 	if cw.Mapper == nil {
@@ -36,6 +40,7 @@ func (cw *CodeWriter) WriteRune(r rune) {
 	if r == '+' || r == '-' {
 		cw.separateSigns(byte(r))
 	}
+	cw.commitMapping()
 	cw.Builder.WriteRune(r)
 	if cw.Mapper == nil {
 		return
